@@ -6,7 +6,7 @@ import ast
 from ..core import Report
 from ..eqterms import equal, explain
 from ..model import BIJ, DIST, TRANSFORMED, Program
-from ..refs import eval_ref_function, eval_ref_method
+from ..refs import eval_ref_function, eval_ref_method, prelude
 from ..terms import C, Env, FOUR, Interp, find_unknown, has_unknown, key, same, show, walk
 from .bij import SELF, bijection_classes, method_site
 from .c07 import compare
@@ -166,7 +166,7 @@ def rule_exact(prog, rep):
     got = gi.reify(gi.eval_function(BJ + "_unwrap_check_and_cast", [M])) if True else None
     wi = Interp(prog, no_inline=noin)
     fnref = ast.parse(WRAPPER_REF).body[0]
-    want = wi.reify(wi.apply_def(fnref, Env(), (m, None, None), [M], {}))
+    want = wi.reify(wi.apply_def(fnref, Env(prelude(prog)), (m, None, None), [M], {}))
     compare(rep, "C13.exact", site, "_unwrap_check_and_cast:forwarded-values", got, want, "wrapper")
     compare_guards(rep, "C13.exact", site, "_unwrap_check_and_cast", gi, wi, "argument check")
     # distribution vectoriser (per-element check) - same comparison as C06.lift incl. guards
@@ -177,7 +177,7 @@ def rule_exact(prog, rep):
     got = gi.eval_method(c, "_vectorize", [meth])
     wi = Interp(prog, no_inline={"flowjax.utils._get_ufunc_signature"})
     fnref = ast.parse(VECTORIZE_REF).body[0]
-    want = wi.apply_def(fnref, Env(), (c.module, c, SELF), [SELF, meth], {})
+    want = wi.apply_def(fnref, Env(prelude(prog)), (c.module, c, SELF), [SELF, meth], {})
     compare(rep, "C13.exact", method_site(prog, c, "_vectorize"), "AbstractDistribution._vectorize:check-wrapped",
             got, want, "vectorised function")
     compare_guards(rep, "C13.exact", method_site(prog, c, "_vectorize"), "AbstractDistribution._check_shapes", gi, wi,
@@ -243,7 +243,7 @@ def rule_ctor(prog, rep):
         args = [("sym", a) for a in argn]
         gi, wi = Interp(prog), Interp(prog)
         got = gi.eval_function(q, args)
-        want = wi.apply_def(ast.parse(src).body[0], Env(), (m, None, None), args, {})
+        want = wi.apply_def(ast.parse(src).body[0], Env(prelude(prog)), (m, None, None), args, {})
         site = f"{m.relpath}:{fn.lineno}"
         compare(rep, "C13.ctor", site, f"{q}:value", got, want, "result")
         compare_guards(rep, "C13.ctor", site, q, gi, wi, "validator")
@@ -252,7 +252,7 @@ def rule_ctor(prog, rep):
         args = [("sym", a) for a in argn]
         gi, wi = Interp(prog), Interp(prog)
         gi.eval_method(c, mname, args)
-        wi.apply_def(ast.parse(src).body[0], Env(), (c.module, c, SELF), [SELF] + args, {})
+        wi.apply_def(ast.parse(src).body[0], Env(prelude(prog)), (c.module, c, SELF), [SELF] + args, {})
         compare_guards(rep, "C13.ctor", method_site(prog, c, mname), f"{c.name}.{mname}", gi, wi, "validator")
     for q, validators in CTOR_CALLS.items():
         c = prog.cls(q)
